@@ -24,6 +24,14 @@ for d,_,fs in os.walk(ROOT):
         src=os.path.join(d,f); rel=os.path.relpath(src,ROOT)
         replace[os.path.join(REPO,rel)]=src
 pat=re.compile(r'^(\s*)"sync"\s*$', re.M)
+# Go map iteration order is a source of nondeterminism the schedule explorer has to own: the two loops over the
+# account pool's per-address map (rebuild, GetAllUncommittedAccountBlocks) take per-address locks in iteration order.
+# In the checker's build they iterate in sorted order (one of the orders the real code can take); if the source no
+# longer has that shape the rewrite is skipped and the explorer's divergence handling covers it.
+MAP_ORDER={'chain/account_pool.go': [
+  (re.compile(r'(\tfor address := range ap\.managers \{\n\t\taddresses = append\(addresses, address\)\n\t\})'), r'\1\n\tverifSortAddresses(addresses)'),
+  (re.compile(r'\tfor address := range ap\.managers \{\n(\t\tblocks = append\(blocks, ap\.getUncommittedAccountBlocksByAddress\(address\)\.\.\.\))'), r'\tfor _, address := range verifSortedAddresses(ap.managers) {\n\1'),
+]}
 n=0
 for d in SYNC_DIRS:
     dd=os.path.join(REPO,d)
@@ -35,6 +43,8 @@ for d in SYNC_DIRS:
         s=open(srcpath(p)).read()
         if not pat.search(s): continue
         s2=pat.sub(r'\1sync "github.com/zenon-network/go-zenon/common/vsync"', s, count=1)
+        for rx,rep in MAP_ORDER.get(os.path.join(d,f), []):
+            s2=rx.sub(rep, s2, count=1)
         o=os.path.join(OUT, d.replace('/','__')+'__'+f)
         if not os.path.exists(o) or open(o).read()!=s2:
             open(o,'w').write(s2)
